@@ -518,13 +518,15 @@ func (self Node) Field(id proto.FieldNumber, rootLayer bool, msgDesc *proto.Mess
 			typDesc := fd.Type()
 			if typDesc.IsMap() || typDesc.IsList() {
 				it.p.Read = tagPos
-				if _, err := it.p.SkipAllElements(i, typDesc.IsPacked()); err != nil {
+				size, err := skipAllElements(&it.p, i, typDesc)
+				if err != nil {
 					return errNode(meta.ErrRead, "SkipAllElements in LIST/MAP failed", err), nil
 				}
 				s = tagPos
 				e = it.p.Read
 
 				v = self.sliceNodeWithDesc(s, e, typDesc)
+				v.size = size
 				goto ret
 			}
 
@@ -584,17 +586,25 @@ func (self Node) Fields(ids []PathNode, rootLayer bool, msgDesc *proto.MessageDe
 			return errNode(meta.ErrRead, "", it.Err)
 		}
 		f := msgDesc.ByNumber(i)
+		if f == nil {
+			// unknown field
+			continue
+		}
 		typDesc := f.Type()
+		size := 0
 		if typDesc.IsMap() || typDesc.IsList() {
 			it.p.Read = tagPos
-			if _, err := it.p.SkipAllElements(i, typDesc.IsPacked()); err != nil {
+			n, err := skipAllElements(&it.p, i, typDesc)
+			if err != nil {
 				return errNode(meta.ErrRead, "SkipAllElements in LIST/MAP failed", err)
 			}
+			size = n
 			s = tagPos
 			e = it.p.Read
 		}
 
 		v := self.sliceNodeWithDesc(s, e, typDesc)
+		v.size = size
 
 		//TODO: use bitmap to avoid repeatedly scan
 		for j, id := range ids {
